@@ -140,6 +140,10 @@ def template_rule(ctx, chk, rule, f, name_term, table, source_of, tail_spec, hea
                           expected="...%s{%s}..." % (want_lit, param), found=text, construct="%s name template shape" % f.short)
             return
         lit, hole = pieces[i][1], pieces[i + 1][1]
+        if hole[0] == "fmt" and hole[2] == -1 and hole[3] is None:
+            # f"{x}" is str(x); f"{prob_to_str(p)}" is prob_to_str(p)
+            inner = hole[1]
+            hole = inner if (inner[0] == "call" and inner[1] in ("str", "prob_to_str")) else ("call", "str", (inner,), ())
         if lit != want_lit:
             ok = False
             chk.violation(rule, where, "file-name template `%s`: the value of %s must follow the literal %r, found %r (parameters run together or carry the wrong prefix)" % (text, param, want_lit, lit),
@@ -201,6 +205,8 @@ def r2_templates(ctx, chk, rule="C17.2"):
             def tail(rest):
                 if len(rest) == 2 and rest[0][0] == "hole" and rest[1] == ("lit", ".py"):
                     h = rest[0][1]
+                    if h[0] == "fmt" and h[2] == -1 and h[3] is None:
+                        h = h[1]
                     if h == simp(("ite", ("truthy", fd), C("_force_down"), C(""))):
                         return True, "suffix '_force_down' iff the force_down flag"
                     return False, "`%s` is not ('_force_down' if force_down else '')" % show(h)
@@ -237,6 +243,8 @@ def r2_templates(ctx, chk, rule="C17.2"):
             def tail2(rest):
                 if len(rest) == 3 and rest[0] == ("lit", "_") and rest[1][0] == "hole" and rest[2] == ("lit", ".py"):
                     h = rest[1][1]
+                    if h[0] == "fmt" and h[2] == -1 and h[3] is None:
+                        h = h[1]
                     if h[0] == "ite" and h[2] == C("force_down") and h[3] == C(""):
                         return True, "suffix 'force_down' iff a down-only tile exists"
                     return False, "`%s`" % show(h)
